@@ -207,7 +207,7 @@ PARTS = [
 import yaml  # noqa: E402
 
 from vfw import gen_truth, model_master  # noqa: E402
-from vfw.core import Reject  # noqa: E402
+from vfw.core import Reject, load_output_yaml, numbers  # noqa: E402
 from vfw.pipeline import Workflow  # noqa: E402
 from vfw.props.C06 import read_curve  # noqa: E402
 from vfw.props.C14 import reference_integral  # noqa: E402
@@ -312,11 +312,15 @@ def check_cli(case):
     ks = sorted(measured, reverse=True)
     if len(ks) < 2:
         raise Reject('fewer than two levels')
-    doc = yaml.safe_load(table_text)
+    doc = load_output_yaml(table_text, 'recession-table')
     if not (isinstance(doc, list) and doc and isinstance(doc[0], list)
             and len(doc[0]) == 3 and all(isinstance(x, str) for x in doc[0])):
         raise Violation('recession-table-header-missing', repr(doc)[:200])
     rows = doc[1:]
+    for row in rows:
+        if not (isinstance(row, list) and len(row) == 3):
+            raise Violation('recession-table-row-shape', repr(row)[:120])
+        numbers(row, 'recession-table-row')
     if len(rows) != len(ks):
         raise Violation('recession-table-row-count', repr(len(rows)))
     scale = max(abs(v) for v in measured.values()) + 1e-6
@@ -340,7 +344,8 @@ def check_cli(case):
     sscale = scale + max(abs(v) for v in sim)
     if abs(sum(sim) / len(sim) - sum(meas) / len(meas)) > 1e-9 * sscale:
         raise Violation('recession-table-mean-not-measured-mean', '')
-    vector = yaml.safe_load(vector_text)
+    vector = numbers(load_output_yaml(vector_text, 'recession-vector'),
+                     'recession-vector')
     if len(vector) != len(sim) or any(
             a != b and abs(a - b) > 1e-14 * max(abs(a), abs(b))
             for a, b in zip(vector, sim)):
